@@ -1,4 +1,5 @@
 import CobyqaVerif.Alg.Solve
+import CobyqaVerif.Props.C04
 /-!
 Exact (rational) driver for the algebra of the models: `lake env lean --run DriverAlg.lean`.
 Rationals travel as `num/den` (or integers).  Inverses of the interpolation system are supplied by the
@@ -194,6 +195,53 @@ def doQuad (n p nfun : ℕ) (parts : List String) : String :=
     | _, _, _, _ => "bad-op"
   | _ => "bad-op"
 
+/-! ### C04: certificates of the reference minimisers
+`kkt n m me r | H ; g ; lo ; hi ; aub ; bub ; aeq ; beq ; x ; mu ; lam ; M ; delta`   (bounds: `none` or a rational)
+     -> `ok` when `Cobyqa.Oracle.certify` holds (so `certify_sound` applies), else `fail gram|feasible|kkt`
+`ball n | c ; x0 ; rho ; nu`  -> `ok x*` (exact `ballMin`) when `c.c = nu^2`, `nu > 0`, `rho > 0`, else `fail` -/
+open Cobyqa.Oracle in
+def optsOf (s : String) : Option (Array (Option Rat)) :=
+  ((s.splitOn " ").filter (· ≠ "")).toArray.mapM fun t => if t = "none" then some none else (parseRat t).map some
+
+open Cobyqa.Oracle in
+def doKkt (n m me r : ℕ) (parts : List String) : String :=
+  match parts with
+  | [H, g, lo, hi, aub, bub, aeq, beq, x, mu, lam, M, d] =>
+    match ratsOf H, ratsOf g, optsOf lo, optsOf hi, ratsOf aub, ratsOf bub, ratsOf aeq, ratsOf beq, ratsOf x, ratsOf mu, ratsOf lam, ratsOf M, ratsOf d with
+    | some H, some g, some lo, some hi, some aub, some bub, some aeq, some beq, some x, some mu, some lam, some M, some d =>
+      if H.size ≠ n * n || g.size ≠ n || lo.size ≠ n || hi.size ≠ n || aub.size ≠ m * n || bub.size ≠ m || aeq.size ≠ me * n ||
+         beq.size ≠ me || x.size ≠ n || mu.size ≠ m || lam.size ≠ me || M.size ≠ n * r || d.size ≠ 1 then "bad-op" else
+      let P : Prob n m me Rat :=
+        { H := fun i j => H[i.val * n + j.val]!, g := vecOf g, lo := fun i => lo[i.val]!, hi := fun i => hi[i.val]!,
+          aub := fun j i => aub[j.val * n + i.val]!, bub := vecOf bub, aeq := fun j i => aeq[j.val * n + i.val]!, beq := vecOf beq }
+      let Mm : Matrix (Fin n) (Fin r) Rat := fun i j => M[i.val * r + j.val]!
+      let xv : Fin n → Rat := vecOf x
+      let muv : Fin m → Rat := vecOf mu
+      let lamv : Fin me → Rat := vecOf lam
+      if certify P Mm d[0]! xv muv lamv then "ok"
+      else if ¬ decide (P.Gram Mm d[0]!) then "fail gram"
+      else if ¬ decide (P.Feasible xv) then "fail feasible"
+      else "fail kkt"
+    | _, _, _, _, _, _, _, _, _, _, _, _, _ => "bad-op"
+  | _ => "bad-op"
+
+open Cobyqa.Oracle in
+def doBall (n : ℕ) (parts : List String) : String :=
+  match parts with
+  | [c, x0, rho, nu] =>
+    match ratsOf c, ratsOf x0, ratsOf rho, ratsOf nu with
+    | some c, some x0, some rho, some nu =>
+      if c.size ≠ n || x0.size ≠ n || rho.size ≠ 1 || nu.size ≠ 1 then "bad-op" else
+      let cv : Fin n → Rat := vecOf c
+      let ρ := rho[0]!
+      let ν := nu[0]!
+      if cv ⬝ᵥ cv = ν ^ 2 ∧ 0 < ν ∧ 0 < ρ then
+        let xs := ballMin cv (vecOf x0) ρ ν
+        "ok " ++ " ".intercalate ((listFin n).map fun i => showRat (xs i))
+      else "fail"
+    | _, _, _, _ => "bad-op"
+  | _ => "bad-op"
+
 def handleAlg (line : String) : String :=
   match line.splitOn "|" with
   | [h, body] =>
@@ -201,6 +249,9 @@ def handleAlg (line : String) : String :=
     match (h.splitOn " ").filter (· ≠ "") with
     | ["det", n, p] => match n.toNat?, p.toNat? with | some n, some p => doDet n p parts | _, _ => "bad-op"
     | ["quad", n, p, nf] => match n.toNat?, p.toNat?, nf.toNat? with | some n, some p, some nf => doQuad n p nf parts | _, _, _ => "bad-op"
+    | ["kkt", n, m, me, r] => match n.toNat?, m.toNat?, me.toNat?, r.toNat? with
+      | some n, some m, some me, some r => doKkt n m me r parts | _, _, _, _ => "bad-op"
+    | ["ball", n] => match n.toNat? with | some n => doBall n parts | _ => "bad-op"
     | _ => "bad-op"
   | _ => "bad-op"
 
